@@ -51,6 +51,19 @@ def nodes():
         for y in NAMES:
             for i in I12:
                 out.append({"op": "wb", "sl": [], "ch": [child([y], i)], "ps": [x]})
+    # binders whose body mentions NO slot at all (a closed child class), next to a free child that uses the binder's name
+    I0 = [i for i in I if i["id"] == 0]
+    for x in NAMES:
+        for i in I12:
+            for j in I0:
+                out.append({"op": "k", "sl": [], "ch": [child([], i), child([x], j)]})
+                out.append({"op": "let", "sl": [], "ch": [child([x], j), child([], i)]})
+        for y in NAMES:
+            for i in I1:
+                for j in I0:
+                    out.append({"op": "sum", "sl": [], "ch": [child([], i), child([x, y], j)]})
+            for j in I0:
+                out.append({"op": "wb", "sl": [], "ch": [child([y], j)], "ps": [x]})
     for n in out:
         n.setdefault("ps", [])
     return out
